@@ -195,7 +195,10 @@ fn do_write(w: &World, goff: usize, s: &Side, val: &[u8]) -> Result<(), String> 
             Ok(())
         }
         4 => {
-            w.vs().get_array_ref::<u8>(so, n).map_err(es)?.copy_from(buf.as_ref());
+            // (the array may be longer than the buffer: only the buffer's length is copied)
+            let room = w.vs().len().saturating_sub(so);
+            let alen = if cx().b(2) == 0 { n } else { room.min(n + 1 + cx().b(24) as usize) };
+            w.vs().get_array_ref::<u8>(so, alen).map_err(es)?.copy_from(buf.as_ref());
             Ok(())
         }
         5 => {
@@ -261,7 +264,9 @@ fn do_read(w: &World, goff: usize, s: &Side, n: usize) -> Result<Vec<u8>, String
             }
         }
         4 => {
-            let k = w.vs().get_array_ref::<u8>(so, n).map_err(es)?.copy_to(buf.as_mut());
+            let room = w.vs().len().saturating_sub(so);
+            let alen = if cx().b(2) == 0 { n } else { room.min(n + 1 + cx().b(24) as usize) };
+            let k = w.vs().get_array_ref::<u8>(so, alen).map_err(es)?.copy_to(buf.as_mut());
             if k == n {
                 Ok(buf.as_ref().to_vec())
             } else {
@@ -409,7 +414,10 @@ fn seam_probe() {
             (false, _) => gm.load::<u64>(GuestAddress(addr), Ordering::SeqCst).map(|_| ()).map_err(es),
         });
         cx().mode = Mode::Setup;
-        let evs: Vec<String> = cx().events[ev0..].iter().filter(|e| matches!(e.kind, EvKind::Read | EvKind::Write | EvKind::Bulk | EvKind::BulkByte | EvKind::Copy | EvKind::Touch)).map(fmt_ev).collect();
+        let mut evs: Vec<String> = cx().events[ev0..].iter().filter(|e| matches!(e.kind, EvKind::Read | EvKind::Write | EvKind::Bulk | EvKind::BulkByte | EvKind::Copy | EvKind::Touch)).map(fmt_ev).collect();
+        // (Bytes::store reports the reference when it is made and again right before the store
+        // goes through it: the same bytes twice)
+        evs.dedup();
         let after: Vec<u8> = raw_read((h1 + s1 - back.min(8).min(s1)) as *mut u8, back.min(8).min(s1)).into_iter().chain(raw_read(h2 as *mut u8, 8)).collect();
         let what = format!("atomic {} of {} bytes at {:#x}, {} byte(s) before the seam of regions [{:#x},+{}) and [{:#x},+4096)", if store { "store" } else { "load" }, width, addr, back, base, s1, base + s1 as u64);
         match r {
@@ -729,6 +737,8 @@ impl Scenario for Tear {
                     continue;
                 }
                 if atomic_form(entry) {
+                    // (the reference when it is made, and again right before a store goes through it)
+                    touches.dedup();
                     if touches != vec![(goff, n)] || !prim.is_empty() {
                         cx().violate("C06", "C06/shape", format!("access shape of {} len {}", names[entry], n), format!("{}: {} op {}: atomic form made references {:?} and plain accesses {:?}; expected exactly one {}-byte reference", cfg, who, k, touches, prim, n));
                     }
